@@ -425,17 +425,155 @@ def _unit(item: tuple) -> Partial:
     return p
 
 
+# ---------------------------------------------------------------------------
+# thorough: the survivors are two concurrent runners (one also executes the recovery bodies),
+# explored under the controlled scheduler with <= 1 deviation, for every crash point
+# ---------------------------------------------------------------------------
+class Scn:
+    points = None  # sync-operation and SQL-statement points; memory: line points below
+
+    def __init__(self, desc: dict) -> None:
+        from vf import worlds
+
+        self.desc = desc
+        if desc["backend"] == env.MEM:
+            self.points = (worlds.MEM_FILES, "line")
+
+    def execute(self, choices: list, expect: Any) -> Any:
+        from pynenc import context, core_tasks
+
+        from vf import sched
+
+        d = self.desc
+        setup, kw = SCENARIOS[d["scenario"]]
+        w = W(d["backend"], **kw)
+        w.expect_failed = set()
+        w.fx.attach(w.victim)
+        op = setup(w)
+        accepted_before = list(w.accepted)
+        w.fx.crash_at = tuple(d["crash"]) if d["crash"] else None
+        w.fx.active = True
+        try:
+            op()
+        except Crash:
+            w.accepted = accepted_before
+        finally:
+            w.fx.active = False
+        if d["backend"] == env.SQLITE:
+            second = env.make_app(env.SQLITE, app_id="c03", db=w.survivor.conf.sqlite_db_path
+                                  if hasattr(w.survivor.conf, "sqlite_db_path") else w.survivor.orchestrator.sqlite_db_path,
+                                  max_pending_seconds=5.0, runner_considered_dead_after_minutes=10.0, cached_status_time=0.0)
+            w.t[id(second)] = tasks.bind(second, tasks.scripted, **_opts(kw))
+        else:
+            second = w.survivor
+        apps = [w.survivor, second]
+
+        def survivor(j: int) -> Any:
+            def f() -> None:
+                app = apps[j]
+                ctx = runner_ctx(f"r{2 + j}")
+                for _round in range(3):
+                    if j == 0:
+                        env.CLOCK.advance(11 * 60.0)
+                        app.orchestrator.register_runner_heartbeats([ctx.runner_id])
+                        context.set_current_app(app)
+                        context.set_runner_context(app.app_id, ctx)
+                        for fn in (core_tasks.recover_pending_invocations, core_tasks.recover_running_invocations):
+                            try:
+                                fn.func()
+                            except sched.Abort:
+                                raise
+                            except Exception:  # noqa: BLE001
+                                pass
+                    else:
+                        app.orchestrator.register_runner_heartbeats([ctx.runner_id])
+                    for _i in range(6):
+                        try:
+                            got = list(app.orchestrator.get_invocations_to_run(2, ctx))
+                        except sched.Abort:
+                            raise
+                        except Exception:  # noqa: BLE001
+                            got = []
+                        if not got:
+                            break
+                        for inv in got:
+                            try:
+                                inv.run(ctx)
+                            except sched.Abort:
+                                raise
+                            except Exception:  # noqa: BLE001
+                                pass
+                    sched.point("round-end")
+            return f
+
+        s = sched.Scheduler(choices, expect, max_points=20000, lazy=("_add_histories",))
+        ex = s.run([("survivor-a", survivor(0)), ("survivor-b", survivor(1))])
+        ex.w = w
+        ex.end = {i: w.record(i) for i in w.accepted}
+        ex.names = {i: w.survivor.state_backend.get_invocation(i).arguments.kwargs["name"] for i in w.accepted}
+        return ex
+
+    def digest(self, ex: Any) -> Any:
+        return (tuple(sorted(v[0] for v in ex.end.values())), tuple(sorted(ex.w.done.items())), ex.outcome)
+
+    def check(self, ex: Any, p: Partial) -> None:
+        d = self.desc
+        if ex.outcome != "done":
+            p.violation({"clause": f"survivors-do-not-finish:{ex.outcome}", "scenario": d["scenario"], "backend": d["backend"]}, {}, {})
+            return
+        if d.get("known_sequentially"):
+            return  # this crash point strands the invocation whatever the survivors do (recorded finding)
+        for i in ex.w.accepted:
+            st, _owner = ex.end[i]
+            name = ex.names[i]
+            if st in FINAL and (ex.w.done.get(name, 0) >= 1 or name in ex.w.expect_failed):
+                continue
+            p.violation({"clause": "accepted-invocation-not-completed-under-concurrent-survivors", "scenario": d["scenario"],
+                         "backend": d["backend"], "end_status": st}, {"crash": d["crash"], "done": dict(ex.w.done)}, {})
+            return
+
+
+def _opts(kw: dict) -> dict:
+    from pynenc.conf.config_task import ConcurrencyControlType as CC
+
+    opts: dict = dict(max_retries=kw.get("max_retries", 2))
+    if kw.get("mode", "DISABLED") != "DISABLED":
+        opts.update(running_concurrency=CC[kw["mode"]], reroute_on_concurrency_control=kw.get("reroute", True))
+    return opts
+
+
+def build(desc: dict) -> Scn:
+    return Scn(desc)
+
+
 def run(ctx: Ctx) -> None:
     only = getattr(ctx, "only", None)
     items = [(s, b) for s in SCENARIOS for b in env.BACKENDS if not only or only in f"{s}/{b}"]
     rot = ctx.seed % len(items)
     for part in par.pmap(_unit, items[rot:] + items[:rot]):
         ctx.merge(part)
+    if ctx.thorough:
+        from vf import e1
+
+        descs = []
+        for (scn, backend) in items:
+            full = one_run(scn, backend, None)["trace"]
+            for k in range(len(full)):
+                for when in ("before", "after"):
+                    q = Partial()
+                    judge(q, scn, backend, (k, when), one_run(scn, backend, (k, when)))
+                    descs.append(dict(scenario=scn, backend=backend, crash=[k, when], bound=1,
+                                      known_sequentially=bool(q.violations)))
+        descs = [d for d in descs if not d["known_sequentially"]]
+        ctx.extra["crash_points_explored_with_concurrent_survivors"] = len(descs)
+        e1.explore_all(ctx, "vf.props.c03", descs, lambda d: d["bound"], replay_every=300)
     ctx.rule = (f"{len(SCENARIOS)} scenarios x 2 backends: the victim's operation is recorded effect by effect "
                 "(queue push/pop, status write, register, argument index, retry count, wait-graph write/release, result / "
                 "exception write, history, upsert), then re-run with a hard crash before and after every effect; "
                 "3 rounds of (clock + 11 min, real recover_pending / recover_running bodies, drain by a surviving runner); "
-                "every accepted invocation must be final with >= 1 completed body")
+                "every accepted invocation must be final with >= 1 completed body; thorough: for every crash point that is "
+                "not a recorded stranding window, the recovery + drain phase is two concurrent surviving runners explored under "
+                "the controlled scheduler with <= 1 deviation")
     ctx.assume("a crash is modelled at backend-effect granularity; SQLite's own atomicity inside one effect is trusted")
     ctx.assume("in the in-memory family the 'process' that dies is a worker thread of the single process (shared state survives)")
     ctx.assume("surviving runners are sequential here (their interleavings are explored in C02/C04/C06)")
@@ -444,6 +582,10 @@ def run(ctx: Ctx) -> None:
 
 def replay(payload: dict) -> bool:
     r = payload["replay"]
+    if r.get("kind") == "schedule":
+        from vf import e1
+
+        return e1.replay_schedule(r)
     p = Partial()
     crash = tuple(r["crash"]) if r.get("crash") else None
     _full(r["scenario"], r["backend"])
